@@ -720,6 +720,13 @@ package calendar
 //@   memo lunar.eightChar
 //@   ensures result != nil
 
+//@ # totality of an accessor on a narrower range than the sweep's (they build objects for the previous / next year)
+//@ func (lunar *Lunar) GetTime() *LunarTime [C08]
+//@   requires 2 <= lunar.year && lunar.year <= 9997 && 3 <= lunar.solar.year && lunar.solar.year <= 9996 && lunar.solar.year != 18
+//@   use tableAx(lunar.solar.year)
+//@   use midxRange(lunar.solar.year, sjdn(lunar.solar))
+//@   use monthLocateBack(lunar.solar.year, midx(lunar.solar.year, sjdn(lunar.solar)))
+
 //@ sweep Solar: 1 <= self.year && self.year <= 9998 [C08]
 //@ sweep SolarWeek: weekOK(self) && jdnInRange(jdn(self.year, self.month, self.day)-6) && jdnInRange(jdn(self.year, self.month, self.day)+6) [C08]
 //@ sweep SolarMonth: inYears(self.year) && 1 <= self.month && self.month <= 12 [C08]
